@@ -145,6 +145,16 @@ Theorem C01_cycle_rejected :
 Proof. exact cycle_rejected. Qed.
 Print Assumptions C01_cycle_rejected.
 
+(* ... and it is an error (not a Panic) whenever the float oracle answers every call *)
+Theorem C01_cycle_is_error :
+  forall F prime ds i q j,
+  is_map ds -> (forall dt v w, convert F dt v prime <> Panic w) ->
+  In (i, q) (value_quads ds) -> reaches ds i j ->
+  (exists j', parent ds j = Some j' /\ reaches ds j' j) ->
+  exists t, entries_from_rdf F prime ds = Err t.
+Proof. exact cycle_is_error. Qed.
+Print Assumptions C01_cycle_is_error.
+
 (* a node that refers to itself (reference cycle of length one): none of its statements
    is merklized.  (Refuted before fix b73a54e: finding D25, witness
    {"@id":"urn:c0","name":"n0","next":{"@id":"urn:c0"}} was accepted with `name`
